@@ -928,6 +928,63 @@ def r03p(rep, F):
     rep.require_count('R03p', 'interruptible rejection loops', n, 5)
 
 
+class SubQuery(paths.Client):
+    """auto = frozenset of problem-definition fingerprints whose solution set was cleared on this path"""
+    track = 'none'
+
+    def __init__(self):
+        self.at_solve = []
+
+    def init(self, fn):
+        return frozenset()
+
+    def on_node(self, fn, node, auto, ctx):
+        c = node.get('callee') or ''
+        if c == B + 'ProblemDefinition::clearSolutionPaths' and node['ch']:
+            return auto | {nofp(fn.fp(node['ch'][0]))}
+        if c.endswith('::solve') and node['k'] == 'CXXMemberCallExpr' and node['ch'] and 'Planner' in c:
+            self.at_solve.append((node['id'], auto, ctx.path()))
+        return auto
+
+
+def r03q(rep, F):
+    rep.rule('R03q', 'sub-queries are isolated: a planner function that runs another planner (a member) on a problem definition it owns '
+                     '(a member other than its own pdef_) and afterwards reads that definition\'s solution (getSolutionPath, getSolutions, '
+                     'hasApproximateSolution, getSolutionDifference, ...) clears the definition\'s solution set on every path before the '
+                     'sub-planner\'s solve(): setStartAndGoalStates replaces starts and goal but keeps the solutions, and the set hands '
+                     'out its best element -- possibly the path of an earlier sub-query, spliced into the current one and reported as exact')
+    READS = ('getSolutionPath', 'getSolutions', 'hasApproximateSolution', 'getSolutionDifference', 'hasExactSolution', 'hasSolution')
+    n = 0
+    for f in F.functions:
+        if not f.body or not f.file.endswith('.cpp') or '/planners/' not in f.file:
+            continue
+        solves = [c for c in f.walk() if (c.get('callee') or '').endswith('::solve') and c['k'] == 'CXXMemberCallExpr' and c['ch'] and
+                  'Planner' in c['callee'] and nofp(f.fp(c['ch'][0])).startswith(('std::__shared_ptr_access::operator->(this.', 'this.'))]
+        if not solves:
+            continue
+        pds = set()
+        for c in f.walk():
+            if c.get('callee', '').startswith(B + 'ProblemDefinition::') and c['callee'].split('::')[-1] in READS and c['ch']:
+                fp = nofp(f.fp(c['ch'][0]))
+                if 'this.' in fp and 'this.pdef_' not in fp:
+                    pds.add(fp)
+        if not pds:
+            continue
+        cl = SubQuery()
+        paths.run_function(f, cl, F)
+        for pd in sorted(pds):
+            for (sid, cleared, path) in cl.at_solve:
+                if sid not in {c['id'] for c in solves}:
+                    continue
+                n += 1
+                ok = pd in cleared
+                rep.add('R03q', f.name, 'solutions-cleared-before-sub-solve[%s]' % pd.split('this.')[-1].rstrip(')'), ok, f.where(sid),
+                        'clearSolutionPaths() on every path before the sub-planner runs' if ok else
+                        'the sub-planner is run and its problem definition\'s solution is read, but the solutions of earlier sub-queries '
+                        'are not cleared first: getSolutionPath() may return the path of a previous sub-query', None if ok else path)
+    rep.require_count('R03q', 'sub-planner runs on an owned problem definition', n, 2)
+
+
 def run(rep):
     units = P.geometric_units() + P.control_units() + P.multilevel_units() + P.base_units()
     F = facts.load_units(units)
@@ -955,6 +1012,7 @@ def run(rep):
     r03m(rep, F)
     r03p(rep, F)
     r03n(rep, F, solves)
+    r03q(rep, F)
     # the RRTConnect side-flag invariant decides which branch is reported as the approximate solution of an interrupted solve
     from rules import c01
     c01.r01k(rep, F)
